@@ -84,6 +84,9 @@ func trackedKind(t types.Type) int {
 				return 1
 			}
 		}
+		if st, ok := u.Elem().Underlying().(*types.Struct); ok && trackedKind(st) == 3 {
+			return 3 // pointer to an option struct with exported byte-slice fields
+		}
 	}
 	return 0
 }
